@@ -8,6 +8,7 @@ _lib = None
 PROT_ORDER = "ARNDCQEGHILKMFPSTWYVBZX"
 DNA_CODE = {"A": 0, "C": 1, "G": 2, "T": 3, "U": 3, "N": 4}
 PROT_CODE = {c: i for i, c in enumerate(PROT_ORDER)}
+PROT_CODE["U"] = PROT_CODE["X"]   # selenocysteine is scored as the unknown residue
 
 
 def lib():
